@@ -99,7 +99,7 @@ PROFILES = {
          edges(20, 2000, Ops=CORE1, MaxSeq=5, MinLen=8),
          drv(24, 160, DRIVE_W), deep(2)],
         c(Ops=CORE_OPS, MaxSeq=6),
-        [sim(1500, 30, Keys={1, 2, 3}, MaxSeq=24, MaxTables=6, MaxHist=30, Ops=CORE_OPS, WriteBias=4),
+        [sim(150, 30, Keys={1, 2, 3}, MaxSeq=24, MaxTables=6, MaxHist=30, Ops=CORE_OPS, WriteBias=4),
          edges(6, 80000, timeout=2400, Ops=CORE1, MaxSeq=6, MinLen=9),
          drv(400, 400, DRIVE_W), deep(12)]),
     # C02 snapshots keep their view
@@ -110,7 +110,7 @@ PROFILES = {
          edges(40, 2000, Ops=SNAP_OPS, MaxSeq=5, MaxSnaps=1, MaxHist=4, MinLen=8),
          drv(24, 160, DRIVE_SNAP_W)],
         c(Ops=SNAP_OPS, MaxSeq=6, MaxSnaps=2, MaxHist=5),
-        [sim(1500, 30, Keys={1, 2, 3}, MaxSeq=24, MaxTables=6, MaxHist=30, MaxSnaps=2,
+        [sim(150, 30, Keys={1, 2, 3}, MaxSeq=24, MaxTables=6, MaxHist=30, MaxSnaps=2,
              Ops=SNAP_OPS | {"reopen"}, WriteBias=4),
          edges(8, 80000, timeout=2400, Ops=SNAP_OPS, MaxSeq=5, MaxSnaps=2, MaxHist=4, MinLen=8),
          drv(400, 400, DRIVE_SNAP_W)],
@@ -123,7 +123,7 @@ PROFILES = {
              Ops=SNAP_OPS | {"reopen", "ingest"}, WriteBias=3),
          drv(24, 120, dict(DRIVE_SNAP_W, ingest=1.0))],
         c(Ops=SNAP_OPS, MaxSeq=6, MaxSnaps=2, MaxHist=5),
-        [sim(800, 30, Keys={1, 2, 3}, MaxSeq=24, MaxTables=6, MaxHist=30, MaxSnaps=2, MaxSealed=2,
+        [sim(80, 30, Keys={1, 2, 3}, MaxSeq=24, MaxTables=6, MaxHist=30, MaxSnaps=2, MaxSealed=2,
              Ops=SNAP_OPS | {"reopen", "ingest"}, WriteBias=4),
          drv(300, 300, dict(DRIVE_SNAP_W, ingest=1.0))],
         scans={"prob": 0.6, "burst": 2}, blobs=[None, None, None, BLOBS[1], BLOBS[7]], val_alphas=[0, 1]),
@@ -135,7 +135,7 @@ PROFILES = {
          edges(20, 2000, Ops=CORE1, MaxSeq=5, MinLen=8),
          drv(24, 160, dict(DRIVE_W, reopen=2))],
         c(Ops=CORE_OPS | {"ingest"}, MaxSeq=6),
-        [sim(1500, 30, Keys={1, 2, 3}, MaxSeq=24, MaxTables=6, MaxHist=30, Ops=CORE_OPS | {"ingest"}, WriteBias=4),
+        [sim(150, 30, Keys={1, 2, 3}, MaxSeq=24, MaxTables=6, MaxHist=30, Ops=CORE_OPS | {"ingest"}, WriteBias=4),
          edges(6, 80000, timeout=2400, Ops=CORE1, MaxSeq=6, MinLen=9),
          drv(400, 400, dict(DRIVE_W, reopen=2))],
         blobs=[None, None, None, BLOBS[1], BLOBS[0], BLOBS[7]], val_alphas=[0, 1, 2]),
@@ -147,7 +147,7 @@ PROFILES = {
          edges(20, 2000, Ops=CORE1, MaxSeq=5, MinLen=8),
          drv(24, 160, dict(DRIVE_W, ingest=0.5))],
         c(Ops=CORE_OPS, MaxSeq=6),
-        [sim(1500, 30, Keys={1, 2, 3}, MaxSeq=24, MaxTables=6, MaxHist=30, Ops=CORE_OPS | {"ingest"}, WriteBias=4),
+        [sim(150, 30, Keys={1, 2, 3}, MaxSeq=24, MaxTables=6, MaxHist=30, Ops=CORE_OPS | {"ingest"}, WriteBias=4),
          edges(6, 80000, timeout=2400, Ops=CORE1, MaxSeq=6, MinLen=9),
          drv(400, 400, dict(DRIVE_W, ingest=0.5))]),
     # C08 key-value separation is invisible
@@ -158,7 +158,7 @@ PROFILES = {
              Ops=CORE1 | {"snap"}, WriteBias=3),
          drv(32, 160, DRIVE_SNAP_W)],
         c(Ops=CORE1 | {"snap"}, MaxSeq=6, MaxSnaps=1, BigVals={2, 3}),
-        [sim(1200, 30, Keys={1, 2, 3}, MaxSeq=24, MaxTables=6, MaxHist=30, MaxSnaps=2, MaxSealed=2,
+        [sim(120, 30, Keys={1, 2, 3}, MaxSeq=24, MaxTables=6, MaxHist=30, MaxSnaps=2, MaxSealed=2,
              BigVals={2, 3}, Ops=CORE1 | {"snap"}, WriteBias=4),
          drv(400, 400, DRIVE_SNAP_W)],
         blobs=BLOBS, val_alphas=[1, 1, 2], scans={"prob": 0.3, "burst": 1},
@@ -171,7 +171,7 @@ PROFILES = {
              Ops=CORE1 | {"droprange"}, WriteBias=3),
          drv(32, 160, dict(DRIVE_W, droprange=0.6)), hugeflush(1)],
         c(Ops=CORE1, MaxSeq=6, BigVals={2, 3}),
-        [sim(1200, 30, Keys={1, 2, 3}, MaxSeq=24, MaxTables=6, MaxHist=30, MaxSealed=2,
+        [sim(120, 30, Keys={1, 2, 3}, MaxSeq=24, MaxTables=6, MaxHist=30, MaxSealed=2,
              BigVals={2, 3}, Ops=CORE1 | {"droprange"}, WriteBias=4),
          drv(400, 400, dict(DRIVE_W, droprange=0.6)), hugeflush(6)],
         blobs=BLOBS, val_alphas=[1, 1, 2],
@@ -183,7 +183,7 @@ PROFILES = {
         [sim(12, 22, MaxSeq=14, MaxTables=5, MaxHist=20, MaxSealed=2, Ops=CORE1 | {"snap"}, MaxSnaps=1, WriteBias=3),
          drv(12, 140, DRIVE_SNAP_W), deep(2)],
         c(Ops=CORE1, MaxSeq=5),
-        [sim(200, 30, Keys={1, 2, 3}, MaxSeq=24, MaxTables=6, MaxHist=30, MaxSealed=2, Ops=CORE1 | {"snap"},
+        [sim(20, 30, Keys={1, 2, 3}, MaxSeq=24, MaxTables=6, MaxHist=30, MaxSealed=2, Ops=CORE1 | {"snap"},
              MaxSnaps=1, WriteBias=4),
          drv(100, 400, DRIVE_SNAP_W), deep(12)],
         phys_count=96, replicate=4, harness_args=["--share-pairs"], scans={"prob": 0.4, "burst": 2},
@@ -195,7 +195,7 @@ PROFILES = {
         [sim(40, 22, WeakKeys={1, 2}, MaxSeq=16, MaxTables=5, MaxHist=20, Ops=WEAK_OPS, WriteBias=2),
          drv(16, 160, DRIVE_W, weak_keys=(1, 2, 3))],
         c(Keys={1}, WeakKeys={1}, MaxSeq=9, MaxSealed=2, Ops=WEAK_OPS),
-        [sim(800, 30, WeakKeys={1, 2}, MaxSeq=24, MaxTables=6, MaxHist=30, MaxSealed=2, Ops=WEAK_OPS, WriteBias=2),
+        [sim(80, 30, WeakKeys={1, 2}, MaxSeq=24, MaxTables=6, MaxHist=30, MaxSealed=2, Ops=WEAK_OPS, WriteBias=2),
          drv(300, 400, DRIVE_W, weak_keys=(1, 2, 3))],
         phys_count=8, key_alphas=[0, 2], regress=["findings/C13-weak-pair-drain.replay.json"]),
     # C14 bulk ingestion
@@ -207,7 +207,7 @@ PROFILES = {
              Ops=SNAP_OPS | {"reopen", "ingest"}, WriteBias=3),
          drv(24, 140, dict(DRIVE_SNAP_W, ingest=2.5))],
         c(Ops=SNAP_OPS | {"ingest"}, MaxSeq=6, MaxSnaps=1, MaxHist=4, DestLevels={0, 6}),
-        [sim(1000, 30, Keys={1, 2, 3}, MaxSeq=26, MaxTables=6, MaxHist=30, MaxSnaps=2, MaxSealed=2,
+        [sim(100, 30, Keys={1, 2, 3}, MaxSeq=26, MaxTables=6, MaxHist=30, MaxSnaps=2, MaxSealed=2,
              Ops=SNAP_OPS | {"reopen", "ingest"}, WriteBias=4),
          drv(300, 400, dict(DRIVE_SNAP_W, ingest=2.5))],
         scans={"prob": 0.35, "burst": 1}),
@@ -220,7 +220,7 @@ PROFILES = {
              Ops=SNAP_OPS | {"reopen", "droprange", "clear"}, WriteBias=3),
          drv(24, 140, dict(DRIVE_SNAP_W, droprange=2.0, clear=0.5))],
         c(Ops=SNAP_OPS | {"droprange", "clear"}, MaxSeq=5, MaxSnaps=2, MaxHist=4, DestLevels={0, 6}),
-        [sim(1000, 30, Keys={1, 2, 3}, MaxSeq=26, MaxTables=6, MaxHist=30, MaxSnaps=2, MaxSealed=2,
+        [sim(100, 30, Keys={1, 2, 3}, MaxSeq=26, MaxTables=6, MaxHist=30, MaxSnaps=2, MaxSealed=2,
              Ops=SNAP_OPS | {"reopen", "droprange", "clear"}, WriteBias=4),
          drv(300, 400, dict(DRIVE_SNAP_W, droprange=2.0, clear=0.5))],
         regress=["findings/C15-leveled-empty-next-level.replay.json"]),
@@ -250,7 +250,7 @@ PROFILES = {
              Ops=CORE1 | {"snap", "clear", "droprange", "ingest", "litter"}, WriteBias=3),
          drv(24, 160, dict(DRIVE_SNAP_W, clear=0.4, droprange=0.8, ingest=0.5, major=1.0, reopen=0.8), litter=0.6)],
         c(Ops=CORE1 | {"snap"}, MaxSeq=6, MaxSnaps=1),
-        [sim(800, 30, Keys={1, 2, 3}, MaxSeq=24, MaxTables=6, MaxHist=30, MaxSnaps=2, MaxSealed=2,
+        [sim(80, 30, Keys={1, 2, 3}, MaxSeq=24, MaxTables=6, MaxHist=30, MaxSnaps=2, MaxSealed=2,
              BigVals={2, 3}, Ops=CORE1 | {"snap", "clear", "droprange", "ingest", "litter"}, WriteBias=4),
          drv(300, 400, dict(DRIVE_SNAP_W, clear=0.4, droprange=0.8, ingest=0.5, major=1.0, reopen=0.8), litter=0.6)],
         blobs=[None, None] + BLOBS, val_alphas=[1], regress=["findings/C20-clear-leaves-files.replay.json"]),
@@ -261,7 +261,7 @@ PROFILES = {
         [sim(50, 22, MaxSeq=14, MaxTables=5, MaxHist=20, Ops=CORE1 | {"ingest", "clear", "pair"}, WriteBias=3),
          drv(24, 160, dict(DRIVE_W, ingest=0.7, clear=0.2, droprange=0.5))],
         c(Ops=CORE_OPS | {"ingest"}, MaxSeq=6),
-        [sim(1500, 30, Keys={1, 2, 3}, MaxSeq=24, MaxTables=6, MaxHist=30,
+        [sim(150, 30, Keys={1, 2, 3}, MaxSeq=24, MaxTables=6, MaxHist=30,
              Ops=CORE_OPS | {"ingest", "clear", "pair"}, WriteBias=4),
          drv(400, 400, dict(DRIVE_W, ingest=0.7, clear=0.2, droprange=0.5))]),
 }
